@@ -12,6 +12,7 @@ package fingerprint
 // ---- C05/C04: the up-to-date verdict is the conjunction of the checkers that apply -------------------
 // stSaid / srcSaid observe what the status and sources checkers answered during this call.
 //@ ghost var stSaid bool scratch
+//@ ghost var ckHasher ref scratch
 //@ ghost var srcSaid bool scratch
 
 // Interface contracts (assumed for every implementation): a checker never rewrites the task it inspects.
@@ -71,12 +72,29 @@ package fingerprint
 //@ func Globs
 //@   modifies heap
 //@   preserves $RUNDATA
+// the patterns of sources / generates are applied IN THE ORDER they are listed: for every file a pattern matches,
+// that pattern's verdict (in for a plain pattern, out for an exclude) replaces whatever an earlier pattern said - an
+// exclude removes what earlier patterns added, a pattern listed after it puts files back. ONE table, written entry by
+// entry in list order, is how that is kept; the files of the set are those whose last verdict is "in"
+//@   site mapstore#0 requires arg0 == resultMap && arg1 == match && arg2 == !g.Negate                       [C04,C05]
+//@   site collectKeys#0 requires arg0 == resultMap                                                           [C04,C05]
 //@ func glob
 //@   modifies heap
 //@   preserves $RUNDATA
 //@ func (*ChecksumChecker).checksum
 //@   modifies heap
 //@   preserves $RUNDATA                                                                              [C12]
+// the fingerprint of the sources is the digest of ONE stream: for every matched file, in list order, its base name
+// and then its content, all fed to the same hasher, whose final state is the result. (A digest per file, combined
+// afterwards - added, xor-ed - is a different function: equal files cancel or commute, and a change that edits two
+// twins alike, or swaps two contents, goes unseen.)
+//@   init ckHasher := nil
+//@   site xxh3.New#0 ghost ckHasher := result
+//@   site io.CopyBuffer#0 requires payload(arg0) == ckHasher                                          [C05,C04]
+//@   site (*Hasher).Sum128#0 requires arg0 == ckHasher                                               [C05,C04]
+//@   nosite (*Hasher).Reset                                                                          [C05,C04]
+//@   nosite xxh3.Hash128                                                                             [C05,C04]
+//@   nosite xxh3.HashString128                                                                       [C05,C04]
 
 // A dry checker never touches the disk; a real one writes nothing but its own state file.
 //@ func (*ChecksumChecker).IsUpToDate
@@ -154,7 +172,9 @@ package fingerprint
 // ---- C05: the list of matched files is in ONE fixed order (plain string order), whatever order the map gave:
 // the checksum hashes names and contents in list order
 //@ func collectKeys
-//@   site sort.Strings#0 requires arg0 == keys                                                      [C05]
-//@   nosite sort.Slice                                                                               [C05]
-//@   nosite sort.SliceStable                                                                         [C05]
-//@   nosite slices.SortFunc                                                                          [C05]
+//@   site sort.Strings#0 requires arg0 == keys                                                     [C05,C09,C02]
+// ... and holds exactly the names whose verdict is "in"
+//@   site append#0 requires arg1[0] == k && v                                                        [C04,C05]
+//@   nosite sort.Slice                                                                              [C05,C09,C02]
+//@   nosite sort.SliceStable                                                                        [C05,C09,C02]
+//@   nosite slices.SortFunc                                                                         [C05,C09,C02]
